@@ -50,6 +50,7 @@ func genFile(r *core.Rng, o core.HistOpts) (*fileWL, bool) {
 // baselineRead reads data through an ideal source of the given kind.
 func baselineRead(shape string, data []byte, kind string, limit int) (*core.ReadResult, *core.Source) {
 	src := core.NewSource(data, nil, nil)
+	src.Record = true
 	src.MaxCalls = 400000 + 400*len(data)
 	rr := core.ExecReader(shape, src.AsReadSeeker(kind), limit, func(a string) { src.CurAPI = a })
 	return rr, src
